@@ -251,6 +251,17 @@ def run(ctx):
         if isinstance(n, ast.For) and isinstance(n.iter, (ast.Tuple, ast.List)) and n.iter.elts and all(
                 isinstance(e, ast.Tuple) and e.elts and all(isinstance(x, ast.Constant) and isinstance(x.value, str) for x in e.elts) for e in n.iter.elts):
             accepted |= {e.elts[0].value for e in n.iter.elts}   # an alias table written as pairs (documented name, option)
+    mod_consts = {t.id: st.value for st in program.module("decorator.py").body if isinstance(st, ast.Assign) for t in st.targets if isinstance(t, ast.Name)}
+    for n in body_walk(wu):
+        it = n.iter if isinstance(n, ast.For) else None
+        if isinstance(it, ast.Call) and isinstance(it.func, ast.Attribute) and it.func.attr == "items":
+            it = it.func.value
+        if isinstance(it, ast.Name) and it.id in mod_consts:
+            v = mod_consts[it.id]
+            if isinstance(v, ast.Dict):
+                accepted |= {k.value for k in v.keys if isinstance(k, ast.Constant) and isinstance(k.value, str)}
+            elif isinstance(v, (ast.Tuple, ast.List)):
+                accepted |= {e.elts[0].value for e in v.elts if isinstance(e, ast.Tuple) and e.elts and isinstance(e.elts[0], ast.Constant) and isinstance(e.elts[0].value, str)}
     for n in ast.walk(program.module("decorator.py")):
         if isinstance(n, ast.Assign) and isinstance(n.value, ast.Dict) and n.value.keys and all(isinstance(k, ast.Constant) and isinstance(k.value, str) for k in n.value.keys) \
                 and any("alias" in norm(t).lower() for t in n.targets):
